@@ -6,6 +6,7 @@ The ...Match classes trim the reads.
 """
 
 import logging
+import re
 from enum import IntFlag
 from collections import defaultdict
 from typing import Optional, Tuple, Sequence, Dict, Any, List, Union
@@ -1461,7 +1462,12 @@ class AdapterIndex:
             try:
                 adapter, e, m = self._index[affix]
             except KeyError:
-                return None
+                # Other characters that are not in the index (IUPAC codes etc.)
+                # are mismatches just as N is
+                result = self._lookup_with_n(affix)
+                if result is None:
+                    return None
+                adapter, e, m = result
         return self._make_match(adapter, self._length, m, e, sequence)
 
     def _match_to_multiple_lengths(self, sequence: str):
@@ -1492,9 +1498,16 @@ class AdapterIndex:
                 try:
                     adapter, e, m = self._index[affix]
                 except KeyError:
-                    continue
+                    result = self._lookup_with_n(affix)
+                    if result is None:
+                        continue
+                    adapter, e, m = result
 
-            if m > best_m or (m == best_m and e < best_e):
+            if (
+                best_adapter is None
+                or m > best_m
+                or (m == best_m and e < best_e)
+            ):
                 # TODO this could be made to work:
                 # assert best_m == -1
                 best_adapter = adapter
@@ -1503,30 +1516,55 @@ class AdapterIndex:
                 # The affix is shorter than requested if the read is shorter
                 best_length = len(affix)
 
-        if best_m == -1:
+        if best_adapter is None:
             return None
         else:
             return self._make_match(best_adapter, best_length, best_m, best_e, sequence)
 
+    _NOT_ACGT = re.compile("[^ACGT]")
+    _NOT_ACGTN = re.compile("[^ACGTN]")
+
     def _lookup_with_n(self, affix):
         # N wildcards need to be counted as mismatches (read wildcards aren’t allowed).
         # We can thus look up an affix where we replace N with an arbitrary nucleotide.
-        affix_without_n = affix.replace("N", "A")
+        # The same goes for any other character that is not A, C, G or T.
+        affix_without_n = self._NOT_ACGT.sub("A", affix)
+        if affix_without_n == affix:
+            return None
         try:
             result = self._index[affix_without_n]
         except KeyError:
-            return None
+            result = None
 
-        # The looked up number of matches and errors is too low if
-        # the adapter actually has an A where the N is in the query.
-        # Fix this by re-doing the alignment.
-        adapter = result[0]
-        match = adapter.match_to(affix)
-        if match is None or match.rstop - match.rstart != len(affix):
+        if result is not None:
+            # The looked up number of matches and errors is too low if
+            # the adapter actually has an A where the N is in the query.
+            # Fix this by re-doing the alignment.
+            adapter = result[0]
+            match = adapter.match_to(affix)
             # With indels, the alignment may cover only part of the affix. The
             # reported errors and score would then not describe the affix.
+            if match is not None and match.rstop - match.rstart == len(affix):
+                return adapter, match.errors, match.score
+        if self._NOT_ACGTN.search(affix) is None:
             return None
-        return adapter, match.errors, match.score
+
+        # The replacement character can hide the adapter that actually occurs.
+        # Characters other than N are rare enough to try all adapters.
+        best = None
+        for adapter in self._adapters:
+            match = adapter.match_to(affix)
+            if match is None or match.rstop - match.rstart != len(affix):
+                continue
+            key = (match.score, -match.errors)
+            if best is None or key > best[0]:
+                best = (key, adapter, match, False)
+            elif key == best[0]:
+                best = (key, adapter, match, True)
+        if best is None or best[3]:
+            # nothing found or ambiguous
+            return None
+        return best[1], best[2].errors, best[2].score
 
 
 class IndexedPrefixAdapters(Matchable):
